@@ -514,7 +514,6 @@ impl<'a, Lookup: Fn(u16) -> Option<AsRoutingInterfaceState>> AdvanceValidator
             true if self.segment_changed.get() => {}
             true => {
                 if self.current_interface_id != 0
-                    && ingress_interface != 0
                     && ingress_interface != self.current_interface_id
                 {
                     return Err(StandardRoutingError::InvalidIngressInterface {
